@@ -531,34 +531,6 @@ func oracleC04(x *Exec, r *StepRec) {
 			return
 		}
 	}
-	if r.Kind == "end" {
-		// one slash event per failure, naming the provider
-		want := map[string]int{}
-		for bk, n := range fails {
-			want[hx(pre.Bindings[bk].Provider)] += n
-		}
-		got := map[string]int{}
-		for _, e := range r.Events {
-			if e.Type == types.EventTypeServiceSlash {
-				a, err := decodeBech32(e.Get(types.AttributeKeyProvider))
-				if err == nil {
-					got[hx(a)]++
-				}
-			}
-		}
-		for _, p := range sortedIntKeys(want) {
-			if got[p] != want[p] {
-				x.viol("C04", "slash_events", fmt.Sprintf("provider %s: %d failures but %d slash events", p, want[p], got[p]), nil)
-				return
-			}
-		}
-		for _, p := range sortedIntKeys(got) {
-			if want[p] != got[p] {
-				x.viol("C04", "slash_events", fmt.Sprintf("provider %s: %d slash events but %d failures", p, got[p], want[p]), nil)
-				return
-			}
-		}
-	}
 }
 
 func bkShow(bk string) string {
